@@ -26,3 +26,20 @@ claim("C08", "Coq model of npc + correspondence on related-input pairs; relation
 claim("C09", "Coq model of fwer_minp (argsort oracle, nested npc, running max, scatter back) + correspondence on all orderings; theorems in Properties/C09.v",
       "fwer_minp model compared with the implementation on all orderings of 3 (thorough 3 and 4) distinct p-values x matrices x combiners and random tied vectors; step-down values recomputed independently in Fractions and required at the supplied positions; relabelling relation asserted on the implementation.",
       COMMON_NOTE + "argsort tie order is an oracle input.", "DESIGN.md 4/C09")
+
+CORE_NOTE = COMMON_NOTE + "Randomness: the generator is a tape of bounded answers (Model/Prng.v); SHA-256/MT19937 output is assumed uniform; np.mean/np.take/np.sum are modelled exactly on exactly-representable data; 't' statistics are checked through the returned dist only."
+claim("C01", "Coq tape model of the six tests + shuffle-uniformity/binomial-count theorems + correspondence with a scripted generator",
+      "Each test is modelled over Q with an explicit tape (rearrangements, statistic, hit counts, p-value assembly); the model is compared with the implementation on scripted tapes (p, observed statistic, dist, the arguments every recording statistic received, number of draws) and the theorems of Properties/C01.v cover the p-value formula, uniformity of the rearrangements over the answer space and the binomial law of the hit count.",
+      CORE_NOTE, "DESIGN.md 4/C01")
+claim("C03", "Coq theorems that every model rearrangement is a permutation (within stratum/row) + admissibility predicates and bytewise input snapshots on the implementation",
+      "Model outputs are permutations for all inputs and all tapes (Properties/C03.v); on the implementation every argument received by recording statistics is checked admissible and caller arrays are compared bytewise around every call, for the tests and the helper functions.",
+      CORE_NOTE, "DESIGN.md 4/C03")
+claim("C05", "Coq theorems on the p-value assembly (p = (H+c)/(reps+c), bounds, keep_dist irrelevance in the model) + exact recomputation of p from the returned dist on the implementation",
+      "The p-value assembly functions of all tests are proved equal to the textbook (H+c)/(reps+c) with two-sided = min(1,2min), with bounds; on the implementation p is recomputed from the returned dist with exact rational comparisons and keep_dist twins are run on identical draws.",
+      CORE_NOTE, "DESIGN.md 4/C05")
+claim("C06", "Coq theorem that draws depend on sizes only (tape consumption/rearrangements independent of data and statistic) + reproducibility/isolation runs on the implementation",
+      "In the model the rearrangements and the tape consumed are functions of the sizes and the tape alone; the implementation is run twice with equal seeds under different numpy global states, with int vs SHA256 seeds and replayed RandomState, and numpy's global state is compared around every seeded call.",
+      CORE_NOTE, "DESIGN.md 4/C06")
+claim("C16", "Coq model of potential_outcomes / two_sample_shift + theorems (shift 0 = two_sample, scalar = pair, guards) + correspondence",
+      "potential_outcomes and two_sample_shift are modelled exactly; correspondence on scalar shifts (incl. non-integer shifts of integer data), inverse and non-inverse pairs, missing shift and single callables, with recording statistics; theorems in Properties/C16.v.",
+      CORE_NOTE, "DESIGN.md 4/C16")
